@@ -79,6 +79,7 @@ def make_scenario(job, groups):
         client.topic_errors["t"] = 0
         sends = []
         st = {
+            "sync_left": job.get("sync_budget", 2),
             "faults": job["faults"],
             "stopped": False,
             "batches": [],  # per batch (sequence of attempts): list of request records
@@ -210,6 +211,16 @@ def make_scenario(job, groups):
                 ctx.check(len(cur["attempts"]) + 1 <= maxatt, "attempts-bounded-by-maximum", "attempt %d" % (len(cur["attempts"]) + 1))
             cur["attempts"].append(rec)
             ctx.log("produce-req", sorted((tp, [s.idx for s in rec["payloads"][tp]["sends"]]) for tp in tps))
+            if job.get("sync") and (st["faults"] > 0 or job["sync"] == "any") and st["sync_left"] > 0 and not st.get("in_sync") and ctx.choose("sync_answer", 2) == 1:
+                st["sync_left"] -= 1
+                # the client answers before send_produce_request() returns (a Deferred that has already fired: closed
+                # client, cached routing error, send failure): the producer's handlers then run inside its own addBoth
+                ctx.log("answered-synchronously")
+                st["in_sync"] = True
+                try:
+                    resolve_produce(p)
+                finally:
+                    st["in_sync"] = False
 
         client.on_request = on_request
 
@@ -217,6 +228,10 @@ def make_scenario(job, groups):
         def on_result(r, s):
             s.res.append(r)
             ctx.check(len(s.res) == 1, "fires-exactly-once", "send %d fired %d times" % (s.idx, len(s.res)))
+            if job.get("resend") and len(sends) < S and not st["stopped"] and ctx.choose("resend", 2) == 1:
+                # the application submits another send from the result handler of this one
+                ctx.log("send-from-callback", s.idx)
+                do_send()
             if isinstance(r, Failure):
                 ctx.log("send-failed", s.idx, type(r.value).__name__)
                 return None
@@ -394,7 +409,7 @@ def make_scenario(job, groups):
         nsends = 0
         while ev < K:
             acts = []
-            if nsends < S and not st["stopped"]:
+            if len(sends) < S and not st["stopped"]:
                 acts.append(0)
             prod = client.outstanding("produce")
             meta = client.outstanding("metadata")
